@@ -11,6 +11,8 @@ model's insertion-ordered list; a removal of a non-member must raise and leave
 the whole world exactly as it was.
 """
 
+import os
+
 from egsim import engine, gen
 from egsim.props import common
 
@@ -83,6 +85,7 @@ class C02(common.ModelProperty):
         "override-raised-after-recording-the-membership",
         "removal-override-admitted-the-vertex-again",
         "subclass-with-late-state-built-with-universes",
+        "universe-with-thousands-of-members",
     ]
 
     def make_config(self, rng):
@@ -121,7 +124,24 @@ class C02(common.ModelProperty):
         cfg["multi"] = False
         cfg["restarts"] = rng.random() < 0.3
         cfg["weights"] = gen.swarm_weights(rng, KINDS, always=("uni_add",))
+        if rng.random() < float(os.environ.get("EGSIM_C02_CROWD_P", "0.0005" if common.deep_tier() else "0.0015")):
+            # "over every pool": one universe with thousands of members (code
+            # paths that depend on size), then a short ordinary history
+            cfg["crowd"] = rng.choice([1100, 2100, 4200])
+            cfg["steps"] = rng.randint(4, 10)
+            cfg["restarts"] = False
+            cfg.pop("deep_bounds", None)
+            cfg["max_vertices"] = cfg["crowd"] + cfg["nv"] + 4
+            cfg["weights"]["v_add_uni"] = max(3, cfg["weights"].get("v_add_uni", 0))
+            cfg["weights"]["mk_vertex_unis"] = max(2, cfg["weights"].get("mk_vertex_unis", 0))
         return cfg
+
+    def next_op(self, rng, cfg, st):
+        if cfg.get("crowd") and not getattr(st, "crowd_made", False) and st.pending_setup == []:
+            st.crowd_made = True
+            st.stats["probe:universe-with-thousands-of-members"] += 1
+            return {"op": "mk_crowd", "new": st.namer.new("u"), "cls": "Universe", "n": cfg["crowd"], "tag": 0}
+        return super().next_op(rng, cfg, st)
 
     refusal_name = "construction-refused-before-anything-was-recorded"
 
